@@ -68,10 +68,22 @@ class C03(Check):
         res = CaseResult()
         owner, cname = program["owner"], program["cls"]
         path = env.new_path("c03")
-        ws = Workspace.create(path)
+        ops = list(program["ops"])
+        extra = {}
+        ws_kwargs = {}
+        if ops and ops[0]["seed"] == [100]:
+            # "int" form: the attribute is FIRST written as a whole-number int, at creation where the constructor takes it
+            first = ops[0]["attr"]
+            if owner == "workspace" and first == "version":
+                ws_kwargs["version"] = 2
+                ops = ops[1:]
+            elif owner == "object" and first in V.INT_AT_CREATION and V.has_setter(V.F.get_class(cname), first):
+                extra[first] = V.INT_AT_CREATION[first]
+                ops = ops[1:]
+        ws = Workspace.create(path, **ws_kwargs)
         try:
             try:
-                ent, target = V.build_owner(ws, owner, cname, program["geom"])
+                ent, target = V.build_owner(ws, owner, cname, program["geom"], extra)
             except Exception as exc:
                 res.label(f"build_failed:{cname}:{type(exc).__name__}")
                 return res
@@ -94,7 +106,9 @@ class C03(Check):
                     res.label("target_lost_on_reload")
                     return res
             done = []
-            for op in program["ops"]:
+            if extra or ws_kwargs:
+                res.label("created-with-int-attribute")
+            for op in ops:
                 attr = op["attr"]
                 tag = f"{owner}:{cname}.{attr}"
                 try:
